@@ -19,14 +19,138 @@ macro_rules
 
 namespace Str
 
-/-- ASCII predicates / maps (Rust `u8::is_ascii_*`, `to_ascii_*`). -/
-def isAsciiUpper (c : Char) : Bool := 'A'.toNat ≤ c.toNat && c.toNat ≤ 'Z'.toNat
-def isAsciiLower (c : Char) : Bool := 'a'.toNat ≤ c.toNat && c.toNat ≤ 'z'.toNat
-def isAsciiDigit (c : Char) : Bool := '0'.toNat ≤ c.toNat && c.toNat ≤ '9'.toNat
+/-- ASCII predicates / maps (Rust `char::is_ascii_*`, `to_ascii_*`), written as explicit finite
+matches so that facts about them are closed by case analysis instead of code-point arithmetic. -/
+def isAsciiUpper : Char → Bool
+  | 'A' => true
+  | 'B' => true
+  | 'C' => true
+  | 'D' => true
+  | 'E' => true
+  | 'F' => true
+  | 'G' => true
+  | 'H' => true
+  | 'I' => true
+  | 'J' => true
+  | 'K' => true
+  | 'L' => true
+  | 'M' => true
+  | 'N' => true
+  | 'O' => true
+  | 'P' => true
+  | 'Q' => true
+  | 'R' => true
+  | 'S' => true
+  | 'T' => true
+  | 'U' => true
+  | 'V' => true
+  | 'W' => true
+  | 'X' => true
+  | 'Y' => true
+  | 'Z' => true
+  | _ => false
+
+def isAsciiLower : Char → Bool
+  | 'a' => true
+  | 'b' => true
+  | 'c' => true
+  | 'd' => true
+  | 'e' => true
+  | 'f' => true
+  | 'g' => true
+  | 'h' => true
+  | 'i' => true
+  | 'j' => true
+  | 'k' => true
+  | 'l' => true
+  | 'm' => true
+  | 'n' => true
+  | 'o' => true
+  | 'p' => true
+  | 'q' => true
+  | 'r' => true
+  | 's' => true
+  | 't' => true
+  | 'u' => true
+  | 'v' => true
+  | 'w' => true
+  | 'x' => true
+  | 'y' => true
+  | 'z' => true
+  | _ => false
+
+def isAsciiDigit : Char → Bool
+  | '0' => true
+  | '1' => true
+  | '2' => true
+  | '3' => true
+  | '4' => true
+  | '5' => true
+  | '6' => true
+  | '7' => true
+  | '8' => true
+  | '9' => true
+  | _ => false
+
 def isAscii (c : Char) : Bool := c.toNat < 128
 
-def asciiUpper (c : Char) : Char := if isAsciiLower c then Char.ofNat (c.toNat - 32) else c
-def asciiLower (c : Char) : Char := if isAsciiUpper c then Char.ofNat (c.toNat + 32) else c
+def asciiUpper : Char → Char
+  | 'a' => 'A'
+  | 'b' => 'B'
+  | 'c' => 'C'
+  | 'd' => 'D'
+  | 'e' => 'E'
+  | 'f' => 'F'
+  | 'g' => 'G'
+  | 'h' => 'H'
+  | 'i' => 'I'
+  | 'j' => 'J'
+  | 'k' => 'K'
+  | 'l' => 'L'
+  | 'm' => 'M'
+  | 'n' => 'N'
+  | 'o' => 'O'
+  | 'p' => 'P'
+  | 'q' => 'Q'
+  | 'r' => 'R'
+  | 's' => 'S'
+  | 't' => 'T'
+  | 'u' => 'U'
+  | 'v' => 'V'
+  | 'w' => 'W'
+  | 'x' => 'X'
+  | 'y' => 'Y'
+  | 'z' => 'Z'
+  | c => c
+
+def asciiLower : Char → Char
+  | 'A' => 'a'
+  | 'B' => 'b'
+  | 'C' => 'c'
+  | 'D' => 'd'
+  | 'E' => 'e'
+  | 'F' => 'f'
+  | 'G' => 'g'
+  | 'H' => 'h'
+  | 'I' => 'i'
+  | 'J' => 'j'
+  | 'K' => 'k'
+  | 'L' => 'l'
+  | 'M' => 'm'
+  | 'N' => 'n'
+  | 'O' => 'o'
+  | 'P' => 'p'
+  | 'Q' => 'q'
+  | 'R' => 'r'
+  | 'S' => 's'
+  | 'T' => 't'
+  | 'U' => 'u'
+  | 'V' => 'v'
+  | 'W' => 'w'
+  | 'X' => 'x'
+  | 'Y' => 'y'
+  | 'Z' => 'z'
+  | c => c
 
 def toAsciiUpper (s : Str) : Str := s.map asciiUpper
 def toAsciiLower (s : Str) : Str := s.map asciiLower
